@@ -49,7 +49,7 @@ func alertOf(err error) int {
 
 // C21 — Compressed server certificates are recovered exactly.
 func TestC21(t *testing.T) {
-	r := mon.New("C21", "server chains of 1..4 certificates with ballast (certificate messages from ~0.5 KB to ~200 KB) x {brotli, zlib, zstd} x encoder settings (levels, stored blocks, mid-stream flushes every n bytes, zstd windows) replacing the real Certificate message before it enters the server transcript (hook H1) x corruptions (declared length -1/+1/-1000/+1000/0/2^24-1, truncated stream, flipped byte, trailing garbage, unadvertised algorithm); clients: parrots advertising compress_certificate and custom specs advertising each subset; a third of the servers also send a CertificateRequest. Oracle: valid => handshake completes and PeerCertificates equal the chain sent; invalid => client error and the server receives bad_certificate; never a different certificate. distinct = (client, algorithm, encoder setting, size bucket, corruption)")
+	r := mon.New("C21", "server chains of 1..4 certificates with ballast (certificate messages from ~0.5 KB to ~200 KB) x {brotli, zlib, zstd} x encoder settings (levels, stored blocks, mid-stream flushes every n bytes, zstd windows) replacing the real Certificate message before it enters the server transcript (hook H1) x corruptions (declared length -1/+1/-1000/+1000/0/2^24-1, truncated stream, flipped byte, trailing garbage, unadvertised algorithm); clients: parrots advertising compress_certificate, custom specs advertising each subset, and parrots whose caller removes the extension or narrows its list after the first build; a third of the servers also send a CertificateRequest. Oracle: valid => handshake completes and PeerCertificates equal the chain sent; invalid => client error and the server receives bad_certificate; never a different certificate. distinct = (client, algorithm, encoder setting, size bucket, corruption)")
 	defer r.Finish(t)
 	f := peer.Fix()
 	// chains
@@ -111,6 +111,29 @@ func TestC21(t *testing.T) {
 			name += fmt.Sprintf("-%d", a)
 		}
 		clients = append(clients, client{name, Target{Name: name, Spec: customCompressSpec(ss)}, m})
+	}
+	// callers that change what they advertise after the hello was first built (documented
+	// edits of uconn.Extensions): what counts is the extension on the wire
+	for _, pn := range []string{"Chrome_120", "Chrome_102", "Safari_16_0"} {
+		p := ParrotByName(pn)
+		clients = append(clients, client{p.Name + "+ext-removed-after-build", Target{Name: p.Name + "+ext-removed-after-build", ID: p.ID, Edit: func(u *tls.UConn) error {
+			var kept []tls.TLSExtension
+			for _, e := range u.Extensions {
+				if _, ok := e.(*tls.UtlsCompressCertExtension); !ok {
+					kept = append(kept, e)
+				}
+			}
+			u.Extensions = kept
+			return nil
+		}}, map[uint16]bool{}})
+		clients = append(clients, client{p.Name + "+list-narrowed-after-build", Target{Name: p.Name + "+list-narrowed-after-build", ID: p.ID, Edit: func(u *tls.UConn) error {
+			for _, e := range u.Extensions {
+				if cc, ok := e.(*tls.UtlsCompressCertExtension); ok {
+					cc.Algorithms = []tls.CertCompressionAlgo{tls.CertCompressionZstd}
+				}
+			}
+			return nil
+		}}, map[uint16]bool{uint16(tls.CertCompressionZstd): true}})
 	}
 	r.Count("clients", int64(len(clients)))
 	settings := []struct {
@@ -302,7 +325,14 @@ func TestC21(t *testing.T) {
 				r.Violation(sig, fmt.Sprintf("%s: client accepted a CompressedCertificate with %s (%s, %s) that the reference decoder does not decode to a message of the declared length", j.cl.name, j.corrupt, algName(j.alg), settings[j.set].name), rep)
 			} else {
 				r.Count("invalid_rejected", 1)
-				if a := alertOf(h.ServerErr); a != 42 {
+				a := alertOf(h.ServerErr)
+				if a == 10 && len(j.cl.algs) == 0 {
+					// the hello on the wire carries no compress_certificate extension at all: the
+					// message type itself is unsolicited, and unexpected_message is the answer to
+					// that (the statement's bad_certificate is about an advertised list that lacks
+					// the algorithm)
+					r.Count("unsolicited_compressed_certificate_refused", 1)
+				} else if a != 42 {
 					// oversized messages may be cut off by the record layer limit before decompression
 					if !(sentMsgLen > 1<<18) {
 						sig["kind"] = "wrong_alert_for_bad_compressed_certificate"
